@@ -15,6 +15,6 @@ hprop.install(globals(), hprop.HistoryProperty(
           "entered AND >=1 stationary instruction naming a remote target AND >=1 arrival by default transition; distinct = sha1(world, op log)"),
     assumptions=hprop.COMMON_ASSUMPTIONS,
     quick=(16, 60, 35), thorough=(16, 1500, 60), probes=True,
-    instr_bias={"kinds": [3, 3, 3, 4, 4, 4, 6, 6, 6, 2, 5, 1, 0, 8, 7], "tclasses": [0, 1, 2, 2, 2, 2, 3, 5]},
+    instr_bias={"relocate": True, "kinds": [3, 3, 3, 4, 4, 4, 6, 6, 6, 2, 5, 1, 0, 8, 7], "tclasses": [0, 1, 2, 2, 2, 2, 3, 5]},
 ))
 FLOORS = {"quick": {"flag:stationary_instruction_remote_target": 60}, "thorough": {"flag:stationary_instruction_remote_target": 1000}}
